@@ -193,7 +193,8 @@ Proof.
                                           | None => false end)
                  (match option_map IT w with Some w0 => item_tables w0 | None => [] end) || false) with (upd_wns tbl w).
   set (B := set_wn (kc K) (upd_wns tbl w)).
-  rewrite (sets_part (with_c K B) (set_wn B false) B sets K_q K_sq Hl).
+  assert (Hsqv : sq (if clause_subq_setvalue then set_subq B true else B) = Some "'") by (destruct clause_subq_setvalue; exact K_sq).
+  rewrite (sets_part (with_c K B) (set_wn B false) (if clause_subq_setvalue then set_subq B true else B) sets K_q Hsqv Hl).
   rewrite (table_sql_plain B tbl Ht). change (q B) with (q (kc K)). rewrite K_q, Hch, page_tail_none.
   destruct sets as [|p0 ps]; [congruence|]. cbn [map bind]. fold (set_lits (p0 :: ps)).
   destruct w as [w0|].
@@ -229,5 +230,96 @@ Proof.
     destruct (render (set_subq B true) (map_tref (resolve_tref [src_ref (SrcT tbl) None]) w0)) as [wt|e]; [|reflexivity].
     cbn [bind paren join]. unfold delete_text, where_text. rewrite ?sapp_assoc. reflexivity.
   - cbn [option_map opt_bind bind paren join]. unfold delete_text, where_text. rewrite ?sapp_assoc, ?sapp_nil_r. reflexivity.
+Qed.
+(* ------------------------------------------------------------------------------------------------ *)
+(* ANY value terms: the statement text has the positional structure whatever the values are         *)
+(* ------------------------------------------------------------------------------------------------ *)
+Definition values_text_x (rows : list (list string)) : string := " VALUES (" ++ join "),(" (map (join ",") rows) ++ ")".
+Definition insert_text_x (m : imode) (tbl : string) (cols : list string) (rows : list (list string)) : string :=
+  head_text m ++ fmt_ident tbl ++ cols_text cols ++ values_text_x rows.
+Definition pair_text_x (p : string * string) : string := fmt_ident (fst p) ++ "=" ++ snd p.
+Definition update_text_x (tbl : string) (pairs : list (string * string)) (w : option string) : string :=
+  "UPDATE " ++ fmt_ident tbl ++ " SET " ++ join "," (map pair_text_x pairs) ++ where_text w.
+
+Lemma mapM_bind_ok {A B} (f : A -> res B) : forall l ys, mapM f l = Ok ys -> List.length ys = List.length l /\
+  forall k x, nth_error l k = Some x -> exists y, nth_error ys k = Some y /\ f x = Ok y.
+Proof.
+  induction l as [|a r IH]; intros ys H.
+  - injection H as <-. split; [reflexivity|]. intros [|k] x E; discriminate E.
+  - cbn [mapM] in H. destruct (f a) as [y|e] eqn:Ea; [|discriminate]. destruct (mapM f r) as [ys'|e] eqn:Er; [|discriminate].
+    injection H as <-. destruct (IH ys' eq_refl) as [L N]. split; [cbn; congruence|].
+    intros [|k] x E; cbn in E |- *.
+    + injection E as <-. exists y. auto.
+    + apply N. exact E.
+Qed.
+
+Theorem str_query_insert_any tbl cols (rows : list (list cell)) sel repl texts :
+  plain_table tbl = true -> rows <> [] ->
+  mapM (fun row => mapM (fun x : cell => ins_value_res c (snd x)) row) rows = Ok texts ->
+  str_query (QIns c tbl (map (fun s => TField s (Some tbl) None) cols) (map (map (fun x => IT (snd x))) rows) sel repl None)
+  = Ok (insert_text_x (if repl then MReplace else MInsert) (tname tbl) cols texts).
+Proof.
+  intros Ht Hne Hv.
+  unfold str_query. cbn [top_cls]. cbn [rquery]. rewrite fix_rows. fold K.
+  set (B := set_wn (kc K) false).
+  rewrite (cols_part tbl cols B eq_refl K_q (plain_table_alias _ Ht)).
+  assert (R : mapM (fun row : list item => match mapM (ritem (with_c K B) [] (set_subq (set_wa B true) true)) row with
+                                           | Ok vs => Ok (join "," vs) | Err e => Err e end)
+                   (map (map (fun x : cell => IT (snd x))) rows) = Ok (map (join ",") texts)).
+  { clear Hne. revert texts Hv. induction rows as [|row rs IH]; intros texts Hv.
+    - injection Hv as <-. reflexivity.
+    - cbn [mapM map] in Hv |- *.
+      destruct (mapM (fun x : cell => ins_value_res c (snd x)) row) as [vs|e] eqn:Er; [|discriminate].
+      destruct (mapM (fun row0 => mapM (fun x : cell => ins_value_res c (snd x)) row0) rs) as [ts|e] eqn:Ers; [|discriminate].
+      injection Hv as <-. rewrite mapM_map. unfold ins_value_res, ins_value_ctx in Er. fold K in Er. fold B in Er.
+      cbn [ritem]. rewrite Er. rewrite (IH ts eq_refl). reflexivity. }
+  rewrite R. rewrite (table_sql_plain B tbl Ht). change (q B) with (q (kc K)). rewrite K_q.
+  destruct rows as [|r0 rs]; [congruence|]. cbn [map bind].
+  unfold insert_text_x, values_text_x. rewrite !sapp_assoc. destruct repl; reflexivity.
+Qed.
+
+Theorem str_query_update_any tbl (sets : list (string * cell)) (w : option term) texts :
+  plain_table tbl = true -> sets <> [] ->
+  mapM (fun p : string * cell => set_value_res c tbl w (snd (snd p))) sets = Ok texts ->
+  str_query (QUpd c tbl (map (fun p => (TField (fst p) None None, IT (snd (snd p)))) sets) [] [] (option_map IT w) None)
+  = match w with
+    | None => Ok (update_text_x (tname tbl) (combine (map fst sets) texts) None)
+    | Some w0 => match upd_where_res c tbl w0 with
+                 | Ok wt => Ok (update_text_x (tname tbl) (combine (map fst sets) texts) (Some wt))
+                 | Err e => Err e end
+    end.
+Proof.
+  intros Ht Hne Hv. destruct (dml_cls_ok_spec c Hc) as (_ & _ & _ & _ & Hch).
+  unfold str_query. cbn [top_cls]. cbn [rquery].
+  cbn [name_from name_joins src_refs map app List.length Nat.eqb Nat.ltb Nat.leb negb orb base_tables flat_map].
+  rewrite fix_sets. fold K.
+  change (existsb (fun o : option tref => match o with
+                                          | Some tb => negb (existsb (tref_eqb (resolve_tref [] tb)) [tbl])
+                                          | None => false end)
+                 (match option_map IT w with Some w0 => item_tables w0 | None => [] end) || false) with (upd_wns tbl w).
+  set (B := set_wn (kc K) (upd_wns tbl w)).
+  set (V := if clause_subq_setvalue then set_subq B true else B).
+  assert (R : mapM (fun p0 : term * item =>
+                      match render (set_wn B false) (fst p0) with
+                      | Ok a => match ritem (with_c K B) [] V (snd p0) with Ok b => Ok (a ++ "=" ++ b) | Err e => Err e end
+                      | Err e => Err e end)
+                   (map (fun p : string * cell => (TField (fst p) None None, IT (snd (snd p)))) sets)
+              = Ok (map pair_text_x (combine (map fst sets) texts))).
+  { clear Hne. revert texts Hv. induction sets as [|p ps IH]; intros texts Hv.
+    - injection Hv as <-. reflexivity.
+    - cbn [mapM map] in Hv |- *.
+      destruct (set_value_res c tbl w (snd (snd p))) as [v|e] eqn:Ev; [|discriminate].
+      destruct (mapM (fun p0 : string * cell => set_value_res c tbl w (snd (snd p0))) ps) as [ts|e] eqn:Eps; [|discriminate].
+      injection Hv as <-. cbn [fst snd]. rewrite render_set_field. change (q (set_wn B false)) with (q (kc K)). rewrite K_q.
+      unfold set_value_res, set_value_ctx in Ev. fold K in Ev. fold B in Ev. fold V in Ev. cbn [ritem]. rewrite Ev.
+      rewrite (IH ts eq_refl). reflexivity. }
+  rewrite R.
+  rewrite (table_sql_plain B tbl Ht). change (q B) with (q (kc K)). rewrite K_q, Hch, page_tail_none.
+  destruct sets as [|p0 ps]; [congruence|]. cbn [bind].
+  destruct w as [w0|].
+  - cbn [option_map opt_bind ritem]. unfold upd_where_res. fold K. fold B.
+    destruct (render (set_subq B true) (map_tref (resolve_tref []) w0)) as [wt|e]; [|reflexivity].
+    cbn [bind]. unfold update_text_x, where_text. rewrite ?sapp_assoc, ?sapp_nil_r. reflexivity.
+  - cbn [option_map opt_bind bind]. unfold update_text_x, where_text. rewrite ?sapp_assoc, ?sapp_nil_r. reflexivity.
 Qed.
 End Cls.
